@@ -839,6 +839,145 @@ theorem addMets_step (y : Sys) (g : Good y.s) (r : Id) (hr : y.s.hasR r = true) 
 
 
 
+/-! ### removing a reaction -/
+
+theorem removeRxnRaw_good {s : St} (g : Good s) (r : Id) (hr : s.hasR r = true) : Good (removeRxnRaw s r) := by
+  have ns := g.ns
+  have w := g.wf
+  have sy := g.sync
+  -- membership after the removal
+  have hR : ∀ x, (removeRxnRaw s r).hasR x = true → s.hasR x = true ∧ x ≠ r := by
+    intro x hx
+    simp only [removeRxnRaw, upd] at hx
+    by_cases hxr : x = r
+    · simp [hxr] at hx
+    · simp only [hxr, if_false] at hx; exact ⟨hx, hxr⟩
+  refine ⟨⟨?_, ?_⟩, ?_, ?_⟩
+  · intro a b ha hb
+    exact ns.rev_ne a b (hR a ha).1 (hR b hb).1
+  · intro a b ha hb
+    exact ns.rev_inj a b (hR a ha).1 (hR b hb).1
+  · constructor
+    · intro m x hm hx
+      obtain ⟨hx1, hx2⟩ := hR x hx
+      have := w.mr_iff m x hm hx1
+      simpa [removeRxnRaw, hx2] using this
+    · intro x m hx hst
+      exact w.st_has x m (hR x hx).1 hst
+    · intro x gg hx
+      exact w.rg_rule x gg (hR x hx).1
+    · intro gg x hg hx
+      obtain ⟨hx1, hx2⟩ := hR x hx
+      have := w.gr_iff gg x hg hx1
+      simpa [removeRxnRaw, hx2] using this
+    · intro x gg hx h
+      exact w.rg_has x gg (hR x hx).1 h
+    · intro x hx
+      exact w.bounds x (hR x hx).1
+    · intro x hx
+      exact w.inUniv x (hR x hx).1
+    · intro gg x hg h
+      simp only [removeRxnRaw] at h
+      by_cases hxr : x = r
+      · simp [hxr] at h
+      · simp only [hxr, if_false] at h
+        have := w.gr_has gg x hg h
+        simp [removeRxnRaw, upd, hxr, this]
+    · intro m x hm h
+      simp only [removeRxnRaw] at h
+      by_cases hxr : x = r
+      · simp [hxr] at h
+      · simp only [hxr, if_false] at h
+        have := w.mr_has m x hm h
+        simp [removeRxnRaw, upd, hxr, this]
+  · constructor
+    · intro v
+      simp only [removeRxnRaw, upd]
+      constructor
+      · intro hv
+        by_cases h1 : v = s.rev r
+        · simp [h1] at hv
+        · by_cases h2 : v = r
+          · simp [h1, h2] at hv
+          · simp only [h1, h2, if_false] at hv
+            obtain ⟨x, hx, hvx⟩ := (sy.vars v).mp hv
+            have hxr : x ≠ r := by
+              intro e; subst e
+              rcases hvx with e | e
+              · exact h2 e
+              · exact h1 e
+            exact ⟨x, by simp [hxr, hx], hvx⟩
+      · rintro ⟨x, hx, hvx⟩
+        by_cases hxr : x = r
+        · simp [hxr] at hx
+        · simp only [hxr, if_false] at hx
+          have hv : s.hasV v = true := (sy.vars v).mpr ⟨x, hx, hvx⟩
+          have h1 : v ≠ s.rev r := by
+            rcases hvx with e | e
+            · rw [e]; exact fun e' => ns.rev_ne r x hr hx e'.symm
+            · rw [e]; exact fun e' => hxr (ns.rev_inj x r hx hr e')
+          have h2 : v ≠ r := by
+            rcases hvx with e | e
+            · rw [e]; exact hxr
+            · rw [e]; exact ns.rev_ne x r hx hr
+          simp [h1, h2, hv]
+    · intro x hx
+      exact sy.box x (hR x hx).1
+    · exact sy.rows
+    · intro m x hm hx
+      exact sy.coef m x hm (hR x hx).1
+    · intro x hx
+      exact sy.objrev x (hR x hx).1
+
+/-- re-adding with the saved back-references is exactly the inverse -/
+theorem readd_remove {s : St} (g : Good s) (r : Id) (hr : s.hasR r = true) :
+    readdRxnRaw (removeRxnRaw s r) r (fun m => s.mr m r) (fun gg => s.gr gg r) = s := by
+  have hv1 : s.hasV r = true := (g.sync.vars r).mpr ⟨r, hr, Or.inl rfl⟩
+  have hv2 : s.hasV (s.rev r) = true := (g.sync.vars (s.rev r)).mpr ⟨r, hr, Or.inr rfl⟩
+  apply St.ext' <;> try rfl
+  · funext x; simp only [readdRxnRaw, removeRxnRaw, upd]; by_cases h : x = r <;> simp [h, hr]
+  · funext m x; simp only [readdRxnRaw, removeRxnRaw]; by_cases h : x = r <;> simp [h]
+  · funext gg x; simp only [readdRxnRaw, removeRxnRaw]; by_cases h : x = r <;> simp [h]
+  · funext x; simp only [readdRxnRaw, removeRxnRaw, upd]
+    by_cases h1 : x = s.rev r
+    · simp [h1, hv2]
+    · by_cases h2 : x = r
+      · simp [h2, hv1]
+      · simp [h1, h2]
+
+theorem removeRxn_step (y : Sys) (g : Good y.s) (r : Id) (hr : y.s.hasR r = true) : Step y (removeRxn y r) := by
+  have hgood := removeRxnRaw_good g r hr
+  unfold removeRxn
+  cases hc : y.ctx with
+  | nil =>
+    have hin : inCtx y = false := by simp [inCtx, hc]
+    simp only [hin, Bool.false_eq_true, if_false]
+    exact ⟨hgood, by simp [hc]⟩
+  | cons c cs =>
+    have hin : inCtx y = true := by simp [inCtx, hc]
+    simp only [hin, if_true, push]
+    refine ⟨hgood, ?_⟩
+    simp only [hc]
+    refine ⟨[.readdRxn r (fun m => y.s.mr m r) (fun gg => y.s.gr gg r)], by simp, ?_⟩
+    simp only [Undoes, replay, runUndo, readd_remove g r hr]
+
+/-- what `remove_reactions([r])` does, and what it leaves alone -/
+theorem removeRxn_effect (y : Sys) (r : Id) :
+    let s' := (removeRxn y r).s
+    s'.hasR r = false ∧ (∀ x, x ≠ r → s'.hasR x = y.s.hasR x) ∧
+    (∀ m, s'.mr m r = false) ∧ (∀ gg, s'.gr gg r = false) ∧ s'.hasV r = false ∧ s'.hasV (y.s.rev r) = false ∧
+    (∀ m x, x ≠ r → s'.mr m x = y.s.mr m x) ∧ (∀ gg x, x ≠ r → s'.gr gg x = y.s.gr gg x) ∧
+    s'.hasM = y.s.hasM ∧ s'.hasG = y.s.hasG ∧ s'.lb = y.s.lb ∧ s'.ub = y.s.ub ∧ s'.st = y.s.st ∧ s'.rule = y.s.rule ∧ s'.gf = y.s.gf ∧
+    s'.dirMax = y.s.dirMax := by
+  have hs : (removeRxn y r).s = removeRxnRaw y.s r := by
+    unfold removeRxn; split <;> rfl
+  show _ ∧ _
+  rw [hs]
+  refine ⟨by simp [removeRxnRaw, upd], fun x hx => by simp [removeRxnRaw, upd, hx], fun m => by simp [removeRxnRaw],
+    fun gg => by simp [removeRxnRaw], ?_, by simp [removeRxnRaw, upd], fun m x hx => by simp [removeRxnRaw, hx],
+    fun gg x hx => by simp [removeRxnRaw, hx], rfl, rfl, rfl, rfl, rfl, rfl, rfl, rfl⟩
+  simp only [removeRxnRaw, upd]; split <;> simp
+
 /-- operations other than entering / leaving a context -/
 def Op.plain : Op → Bool
   | .enter => false
@@ -867,6 +1006,7 @@ theorem apply_step (y : Sys) (g : Good y.s) (op : Op) (hp : op.plain = true) (ho
     · exact Step.refl g
   | setDir d => exact setDir_step y g d
   | addMets r ps c n => simp only [apply]; split; exact addMets_step y g r ‹_› ps c n hok; exact Step.refl g
+  | removeRxn r => simp only [apply]; split; exact removeRxn_step y g r ‹_›; exact Step.refl g
   | enter => cases hp
   | exit => cases hp
 
